@@ -17,4 +17,5 @@ d_f10_0:
 .type f10_1,@function
 f10_1:
   ret
+  mov wvsv1(%rip),%rax
   ret
